@@ -25,7 +25,7 @@ ASSUMPTIONS = [
 ]
 REQUIRED = {"op.del_atom": 500, "op.del_atom.by-element": 50, "op.del_atom.by-label": 50, "op.add_atom.no-charge": 100,
             "op.append_bond.foreign": 50, "op.remove_substituent": 50, "op.add_implicit_hydrogens": 50,
-            "inspect": 5000, "op.raised": 50, "op.connect.stale-or-foreign-atom": 20, "start.unpickled": 5, "start.mol2": 20, "exh.sequences": 1000}
+            "inspect": 5000, "op.raised": 50, "view.held-substructure-checked": 500, "op.connect.stale-or-foreign-atom": 20, "start.unpickled": 5, "start.mol2": 20, "exh.sequences": 1000}
 CHUNK_TIMEOUT = 900
 TECHNIQUE = "runtime monitoring: identity-keyed edit model stepped beside real Molecule/Structure, invariant at quiescent points"
 LEVEL_TEXT = ("Held on the edit histories produced (random long + bounded-exhaustive short): after every edit the real object "
@@ -70,6 +70,15 @@ class Driver:
         charges = list(mol.atomic_charges) if is_mol else []
         self.model = EditModel(list(mol.atoms), [tuple(r) for r in mol.coords], charges, list(mol.bonds), has_charges=is_mol)
         self.free = set()      # atoms whose row/charge is "whatever it is now" (adopted, hydrogens)
+        self.view = None       # a Substructure view taken at the start and kept across all edits
+        if mol.n_atoms >= 4:
+            members = list(mol.atoms)[1::2][:6]
+            try:
+                sub = mol.substructure(members)
+                _ = sub.coords
+                self.view = (sub, members)
+            except Exception:  # noqa
+                self.view = None
         self.inspect("start", False)
 
     def v(self, key, **detail):
@@ -136,6 +145,24 @@ class Driver:
             want = sorted((id(b), id(p), id(q)) for b, p, q in mod.bonds)
             if got != want:
                 return self.v(f"{after}:bond-set-differs-from-expected", n_got=len(got), n_want=len(want))
+        # a view taken before the edits still addresses its own atoms (while all of them are in the molecule)
+        if self.view is not None:
+            sub, members = self.view
+            if all(id(a) in ids for a in members):
+                self.ctx.count("view.held-substructure-checked")
+                try:
+                    rows = sub.coords
+                    idx = list(sub.parent_atom_indices)
+                except Exception as e:  # noqa
+                    return self.v(f"{after}:held-substructure-view-raises:{type(e).__name__}", err=repr(e)[:200])
+                want_idx = [next(i for i, x in enumerate(atoms) if x is a) for a in members]
+                if idx != want_idx:
+                    return self.v(f"{after}:held-substructure-view-addresses-other-atoms", got=idx[:6], want=want_idx[:6])
+                for a, r in zip(members, rows):
+                    if id(a) not in self.free and not all(same_float(x, y) for x, y in zip(r, mod.row[id(a)])):
+                        return self.v(f"{after}:held-substructure-view-shows-other-atoms-coordinates")
+            else:
+                self.view = None
         # parents and indices
         for i, a in enumerate(atoms):
             try:
